@@ -45,7 +45,7 @@ fn lat_e2e(parity: u32) {
     }
 }
 
-// @harness props=C08 tier=thorough cap=7200 needs=kfmod
+// @harness props=C08 tier=manual cap=14400 needs=kfmod
 // every latitude in 87S..87N (resolution 2 cm), even frame newer: decode within one bin of the truth
 #[cfg_attr(kani, kani::proof)]
 #[cfg_attr(kani, kani::unwind(60))]
@@ -54,7 +54,7 @@ fn c08_lat_e2e_even_newer() {
     lat_e2e(0);
 }
 
-// @harness props=C08 tier=thorough cap=3600 needs=kfmod
+// @harness props=C08 tier=manual cap=14400 needs=kfmod
 // every latitude in 87S..87N, odd frame newer (inexact 360/59 products)
 #[cfg_attr(kani, kani::proof)]
 #[cfg_attr(kani, kani::unwind(60))]
@@ -76,6 +76,10 @@ fn zone_mid_u(nl: i32, south: bool) -> i32 {
 }
 
 fn lon_e2e(nl: i32, parity: u32) {
+    lon_e2e_cell(nl, parity, None)
+}
+/// `cell`: restrict the longitude to one even-frame longitude zone a0 (of NL)
+fn lon_e2e_cell(nl: i32, parity: u32, cell: Option<u32>) {
     let south = crate::verif::seed::SEED % 2 == 1;
     let (yz0, yz1) = encode_lat(zone_mid_u(nl, south));
     // lon = 360 * v / KLON, KLON = NL*(NL-1)*2^19 (NL >= 2): lon/Dlon0 = v/((NL-1)*2^19), lon/Dlon1 = v/(NL*2^19).
@@ -85,7 +89,14 @@ fn lon_e2e(nl: i32, parity: u32) {
     let n1 = (nl - 1) as u32;
     let klon = n0 * n1 * (1u32 << 19);
     let (a0, a1) = (any_below(n0), any_below(n1));
+    if let Some(c) = cell {
+        assume(a0 == c);
+    }
     let (xz0, xz1) = (any_below(1 << 17), any_below(1 << 17));
+    if cell.is_some() {
+        // quick-tier slice: the upper half of one longitude zone (the whole NL zone is the thorough tier)
+        assume(xz0 >= (1 << 16));
+    }
     let (f0, f1) = (any_i32(), any_i32());
     assume(f0 >= -2 * (n1 as i32) && f0 < 2 * (n1 as i32) && f1 >= -2 * (n0 as i32) && f1 < 2 * (n0 as i32));
     let vv = (4 * n1 * (a0 * (1 << 17) + xz0)) as i64 + f0 as i64;
@@ -98,9 +109,10 @@ fn lon_e2e(nl: i32, parity: u32) {
     let truth = if lon360 >= 180.0 { lon360 - 360.0 } else { lon360 };
     let ni = if parity == 1 { if n1 > 1 { n1 } else { 1 } } else { n0 };
     let bin = 360.0 / ni as f64 / 131072.0;
-    vcover!(truth < -179.9, "just east of the antimeridian");
-    vcover!(truth > 179.9, "just west of the antimeridian");
-    vcover!(truth > -0.001 && truth < 0.001, "Greenwich");
+    vcover!(cell.is_some() || truth < -179.9, "just east of the antimeridian (whole-zone instances)");
+    vcover!(cell.is_some() || truth > 179.9, "just west of the antimeridian (whole-zone instances)");
+    vcover!(cell.is_some() || (truth > -0.001 && truth < 0.001), "Greenwich (whole-zone instances)");
+    vcover!(xz0 > 100000 && xz1 != 0, "upper quarter of an even longitude zone");
     match got {
         Some((_lat, lon)) => {
             let d = lon - truth;
@@ -157,6 +169,12 @@ fn draw_lat() -> (i32, u32, u32) {
     draw_lat_in(-16, 15)
 }
 /// latitudes whose even-frame zone index is in klo..=khi (each zone is 6 degrees)
+/// as draw_lat_in, restricted to one sixteenth of the zone (YZ0 in [slice*8192, slice*8192+8192))
+fn draw_lat_slice(k: i32, slice: i32) -> (i32, u32, u32) {
+    let (u, yz0, yz1) = draw_lat_in(k, k);
+    assume((yz0 as i32) >> 13 == slice);
+    (u, yz0, yz1)
+}
 fn draw_lat_in(klo: i32, khi: i32) -> (i32, u32, u32) {
     let (k0, k1) = (any_i32(), any_i32());
     assume(k0 >= klo && k0 <= khi && k1 >= -16 && k1 <= 15);
@@ -173,12 +191,17 @@ fn lat_decode(parity: u32) {
     lat_decode_in(parity, -16, 15)
 }
 fn lat_decode_in(parity: u32, klo: i32, khi: i32) {
-    let (u, yz0, yz1) = draw_lat_in(klo, khi);
+    lat_decode_of(parity, draw_lat_in(klo, khi))
+}
+fn e_nonzero(u: i32) -> bool {
+    u % 236 != 0
+}
+fn lat_decode_of(parity: u32, drawn: (i32, u32, u32)) {
+    let (u, yz0, yz1) = drawn;
     let got = cpr_location(&[yz0, yz1], &[40000, 90000], parity, 1);
     let truth = u as f64 * (360.0 / KLAT as f64);
     let bin = 360.0 / 59.0 / 131072.0;
-    vcover!(yz0 == 0 || yz1 == 0, "a latitude field of 0");
-    vcover!(u != 0 && yz0 > 70000, "upper half of a zone");
+    vcover!(got.is_some() && e_nonzero(u), "a latitude that is not an exact multiple of the encoding step decodes");
     match got {
         Some((lat, _)) => {
             let d = lat - truth;
@@ -244,3 +267,60 @@ macro_rules! lat_cell {
     };
 }
 include!("cpr_lat_gen.rs");
+
+/// seeded choice of a zone (k in -14..=13) and a sixteenth of it
+const fn seeded(i: u64, n: u64) -> u64 {
+    let mut x = crate::verif::seed::SEED.wrapping_mul(6364136223846793005).wrapping_add(1442695040888963407 + i * 104729);
+    x ^= x >> 31;
+    x = x.wrapping_mul(0x9E3779B97F4A7C15);
+    x ^= x >> 29;
+    x % n
+}
+
+// @harness props=C08 tier=quick cap=1500 needs=kfmod
+// latitude recovery on a SEEDED SOUTHERN slice (one sixteenth of one 6-degree zone, 0.375 deg), even frame newer:
+// decode within one CPR bin of the encoded latitude (the whole zone takes 20 min: thorough tier)
+#[cfg_attr(kani, kani::proof)]
+#[cfg_attr(kani, kani::unwind(60))]
+#[cfg_attr(kani, kani::stub(crate::decoder::adsb::position::nl, stub_nl))]
+#[cfg_attr(verif_replay, test)]
+fn c08_lat_slice_even() {
+    const K: i32 = -1 - (seeded(1, 14) as i32); // a SOUTHERN zone (negative zone index)
+    const S: i32 = seeded(2, 16) as i32;
+    lat_decode_of(0, draw_lat_slice(K, S));
+}
+
+// @harness props=C08 tier=quick cap=1500 needs=kfmod
+// latitude recovery on a seeded NORTHERN slice, odd frame newer
+#[cfg_attr(kani, kani::proof)]
+#[cfg_attr(kani, kani::unwind(60))]
+#[cfg_attr(kani, kani::stub(crate::decoder::adsb::position::nl, stub_nl))]
+#[cfg_attr(verif_replay, test)]
+fn c08_lat_slice_odd() {
+    const K: i32 = seeded(3, 14) as i32; // a NORTHERN zone
+    const S: i32 = seeded(4, 16) as i32;
+    lat_decode_of(1, draw_lat_slice(K, S));
+}
+
+// @harness props=C08 tier=quick cap=1500 needs=kfmod
+// longitude recovery with the real decoder on a seeded NL zone and a seeded even-frame longitude zone
+// (360/NL degrees wide), even frame newer
+#[cfg_attr(kani, kani::proof)]
+#[cfg_attr(kani, kani::unwind(60))]
+#[cfg_attr(verif_replay, test)]
+fn c08_lon_slice_even() {
+    const NL: i32 = seeded(5, 58) as i32 + 2;
+    // a longitude zone in the EASTERN half
+    lon_e2e_cell(NL, 0, Some(seeded(6, (NL / 2).max(1) as u64) as u32));
+}
+
+// @harness props=C08 tier=quick cap=1500 needs=kfmod
+// longitude recovery on another seeded NL zone / longitude zone, odd frame newer
+#[cfg_attr(kani, kani::proof)]
+#[cfg_attr(kani, kani::unwind(60))]
+#[cfg_attr(verif_replay, test)]
+fn c08_lon_slice_odd() {
+    const NL: i32 = seeded(7, 58) as i32 + 2;
+    // a longitude zone in the WESTERN half (where the two frames' zone numbers differ and the raw index m is negative)
+    lon_e2e_cell(NL, 1, Some((NL / 2) as u32 + seeded(8, (NL - NL / 2) as u64) as u32));
+}
